@@ -897,12 +897,17 @@ func (d *D) runQuestion(sc *core.Scenario, ctx *core.Ctx) *core.Violation {
 	multi := sc.Sealed["multi"] == "1"
 	sealedFM := sc.Sealed["sealed_fm"] == "1"
 	pub, priv := sc.Sealed["public_key"], sc.Sealed["private_key"]
-	// every subset of marked answers
-	for marked := 1; marked < 1<<n; marked++ {
+	// every subset of marked answers - including letters for which there is no choice (one
+	// and two past the last one): such a marking is never "precisely the matching choices"
+	for marked := 1; marked < 1<<(n+2); marked++ {
 		if !multi && marked&(marked-1) != 0 {
 			continue // single-choice: exactly one letter
 		}
-		ans := letters(marked, n)
+		beyond := marked>>n != 0
+		if beyond && marked>>n == 3 && marked&((1<<n)-1) != 0 && marked&((1<<n)-1) != matching {
+			continue // keep the number of cases down: both extra letters only alone or with the matching set
+		}
+		ans := letters(marked, n+2)
 		line := "answer: " + ans
 		var sealedValue string
 		if sealedFM {
@@ -932,9 +937,18 @@ func (d *D) runQuestion(sc *core.Scenario, ctx *core.Ctx) *core.Violation {
 			obs["panic"] = p
 			return &core.Violation{Oracle: "no-panic", Signature: "panic:verify", Expected: "verification never crashes", Observed: obs, Match: map[string]string{"oracle": "panic"}}
 		}
+		if berr != nil && beyond {
+			if ctx != nil {
+				ctx.Inc("markings_beyond_the_choices_rejected_while_loading", 1)
+			}
+			continue // a letter without a choice may be refused as early as this
+		}
 		if berr != nil {
 			obs["error"] = berr.Error()
 			return &core.Violation{Oracle: "verify-iff", Signature: "question-rejected", Expected: "a well-formed generated question file is accepted by NewQuestionModel", Observed: obs, Match: map[string]string{"oracle": "build"}}
+		}
+		if ctx != nil && beyond {
+			ctx.Inc("verifications_with_a_marked_letter_beyond_the_choices", 1)
 		}
 		want := marked == matching
 		if (verr == nil) != want {
@@ -942,6 +956,9 @@ func (d *D) runQuestion(sc *core.Scenario, ctx *core.Ctx) *core.Violation {
 			sig := "accepted-wrong-marking"
 			if want {
 				sig = "rejected-right-marking"
+			}
+			if beyond {
+				sig += ":letter-without-choice"
 			}
 			sc.Sealed["marked"] = fmt.Sprint(marked)
 			return &core.Violation{Oracle: "verify-iff", Signature: sig,
@@ -1360,7 +1377,7 @@ func (d *D) Describe(ev *core.Evidence, st *core.Stats) {
 	faults["entropy-source-failed"] = c["entropy_fault_made_encrypt_fail"]
 	ev.Coverage["faults_injected"] = faults
 	ev.Coverage["probes"] = map[string]int64{"damaged_values_still_opening_to_original": c["damaged_values_still_opening_to_original"], "wrong_key_opened_to_original": c["wrong_key_opened_to_original"],
-		"verifications": c["verifications"], "verifications_of_corrupted_sealed_files": c["verifications_of_corrupted_sealed_files"], "roundtrips": c["roundtrips"], "frontmatter_roundtrips": c["frontmatter_roundtrips"], "file_roundtrips": c["file_roundtrips"], "model_histories": c["model_histories"], "model_history_operations": c["model_history_operations"], "pairs_of_values_sealed_in_one_process_and_spliced": c["splice_pairs"], "verifications_of_text_and_picture_questions_sharing_programs": c["verifications_of_text_and_picture_questions_sharing_programs"]}
+		"verifications": c["verifications"], "verifications_of_corrupted_sealed_files": c["verifications_of_corrupted_sealed_files"], "roundtrips": c["roundtrips"], "frontmatter_roundtrips": c["frontmatter_roundtrips"], "file_roundtrips": c["file_roundtrips"], "model_histories": c["model_histories"], "model_history_operations": c["model_history_operations"], "pairs_of_values_sealed_in_one_process_and_spliced": c["splice_pairs"], "verifications_of_text_and_picture_questions_sharing_programs": c["verifications_of_text_and_picture_questions_sharing_programs"], "verifications_with_a_marked_letter_beyond_the_choices": c["verifications_with_a_marked_letter_beyond_the_choices"]}
 	ev.Coverage["components"] = map[string][]string{"real": {"learn.Encrypt/Decrypt (RSA-OAEP + AES-GCM envelope)", "questionFrontmatter Seal/Unseal/getAnswer", "QuestionModel: markdown parsing, Verify, verifyChoiceMatch, correctAnswerIndices", "runEvy (the real evaluator produces every output)"},
 		"stub": {"crypto/rand.Reader (seeded stream, made to fail or run short)", "stored sealed value (damaged by the simulator)"}}
 	ev.Assumptions = []string{
